@@ -24,6 +24,7 @@ import Fir.Props.C11
 import Fir.Proofs.BoundsLemmas
 import Fir.Proofs.IdealFilterLemmas
 import Fir.Proofs.GeomLemmas
+import Fir.Proofs.ReadsLemmas
 
 namespace Fir.C03
 open Fir Fir.Bounds Fir.Gen
@@ -117,6 +118,30 @@ theorem idealGeom_in_source (inSize : Nat) (in0 in1 : ℚ) (outSize : Nat) (supp
     let g := idealGeom inSize in0 in1 outSize support adaptive o
     g.2.1 = 0 ∨ g.1 + g.2.1 ≤ inSize :=
   Fir.Proofs.idealGeom_in_source inSize in0 in1 outSize support adaptive o
+
+
+/-! ### every sample the passes of `do_convolution` read exists -/
+
+/-- component index of sample (x, y, c) inside the buffer of a `w x h` image of `n` components -/
+theorem sample_index_lt {w h n x y c : Nat} (hx : x < w) (hy : y < h) (hc : c < n) : (y * w + x) * n + c < w * h * n :=
+  Fir.Proofs.sample_index_lt hx hy hc
+
+/-- two-pass resize: with `first` / `last` = minimum start / maximum end over ALL windows of the pass that
+    runs second (the repaired sizing), the strip the first pass produces lies inside the source, every
+    shifted window of the second pass lies inside the strip, and shifting never underflows - for every set
+    of windows inside their axis (`window_in_source`: every kernel, every rounding) -/
+theorem two_pass_reads_in_bounds (bounds : List (Nat × Nat)) (inSize : Nat) (hin : ∀ b ∈ bounds, b.1 + b.2 ≤ inSize) :
+    (∀ x, x < (tempExtent bounds).2 - (tempExtent bounds).1 → (tempExtent bounds).1 + x < inSize) ∧
+    (∀ b ∈ bounds, (tempExtent bounds).1 ≤ b.1 ∧
+      ∀ j, j < b.2 → (b.1 - (tempExtent bounds).1) + j < (tempExtent bounds).2 - (tempExtent bounds).1) :=
+  Fir.Proofs.two_pass_reads_in_bounds bounds inSize hin
+
+/-- the same about the very quantities `Fir.doConvolution` computes (`boundsFirst`, `boundsLast`) -/
+theorem doConvolution_temp_reads_in_bounds (c : Fir.Coeffs) (inSize : Nat) (hin : ∀ b ∈ c.bounds.toList, b.1 + b.2 ≤ inSize) :
+    (∀ x, x < Fir.boundsLast c - Fir.boundsFirst c → Fir.boundsFirst c + x < inSize) ∧
+    (∀ b ∈ c.bounds.toList, Fir.boundsFirst c ≤ b.1 ∧
+      ∀ j, j < b.2 → (b.1 - Fir.boundsFirst c) + j < Fir.boundsLast c - Fir.boundsFirst c) :=
+  Fir.Proofs.doConvolution_temp_reads_in_bounds c inSize hin
 
 
 end Fir.C03
